@@ -32,50 +32,55 @@ pub fn replay(args: &[String]) {
         let src = fixture(fx);
         for (vi, v) in vectors.iter().enumerate() {
             let alg = &algs[vi % algs.len()];
-            let n = v["n"].as_u64().unwrap() as usize;
-            let smag = v["start"].as_u64().unwrap();
-            let lmag = v["length"].as_u64().unwrap();
             let r = catch(std::panic::AssertUnwindSafe(|| -> Result<Value, c2pa::Error> {
                 let c = Context::new().with_settings(try_settings(&Value::Null)?)?.with_signer(WrapSigner { inner: signer(alg), reserve: None, tsa: None });
+                // one builder for all rounds (placeholder/sign may be repeated on the same builder)
                 let mut b = Builder::from_context(c).with_definition(simple_manifest_json("c15", fmt).to_string().as_str())?;
-                let ph = b.placeholder(fmt)?;
-                let off = splice_offset(fmt, &src);
-                let mut asset = Vec::with_capacity(src.len() + ph.len());
-                asset.extend_from_slice(&src[..off]);
-                asset.extend_from_slice(&ph);
-                asset.extend_from_slice(&src[off..]);
-                // exclusions: the manifest itself first, then n-1 further ranges with the requested magnitudes,
-                // placed after the manifest where the asset is long enough (they exclude media bytes, which is legal)
-                let mut ex = vec![HashRange::new(off as u64, ph.len() as u64)];
-                let after = (off + ph.len()) as u64;
-                for i in 1..n {
-                    let len = lmag.min(64).max(1) + (i as u64 % 3);
-                    let want = smag.max(after) + (i as u64) * (lmag.min(64) + 8);
-                    let start = if want + len < asset.len() as u64 { want } else { after + (i as u64) * 70 };
-                    ex.push(HashRange::new(start, if lmag > 64 && start + lmag < asset.len() as u64 && i == 1 { lmag } else { len }));
-                }
-                let exj: Vec<Value> = ex.iter().map(|h| json!([h.start(), h.length()])).collect();
-                b.set_data_hash_exclusions(ex)?;
-                b.update_hash_from_stream(fmt, &mut Cursor::new(asset.clone()))?;
-                let signed = match b.sign_embeddable(fmt) {
-                    Ok(s) => s,
-                    Err(e) => return Ok(json!({"sign": format!("Err:{}", err_kind(&e)), "placeholder_len": ph.len(), "exclusions": exj})),
-                };
-                let mut rec = json!({"sign": "Ok", "placeholder_len": ph.len(), "signed_len": signed.len(), "exclusions": exj});
-                if signed.len() == ph.len() {
-                    let mut patched = asset.clone();
-                    patched[off..off + signed.len()].copy_from_slice(&signed);
-                    rec["read"] = match read_bytes(ctx(&Value::Null), fmt, &patched) {
-                        Ok(r) => json!({"state": state_str(&r), "failures": failure_codes(&r)}),
-                        Err(e) => json!({"state": format!("ReadErr:{}", err_kind(&e))}),
+                let mut rounds_out = vec![];
+                for rd in v["rounds"].as_array().unwrap() {
+                    let n = rd["n"].as_u64().unwrap() as usize;
+                    let smag = rd["start"].as_u64().unwrap();
+                    let lmag = rd["length"].as_u64().unwrap();
+                    let ph = b.placeholder(fmt)?;
+                    let off = splice_offset(fmt, &src);
+                    let mut asset = Vec::with_capacity(src.len() + ph.len());
+                    asset.extend_from_slice(&src[..off]);
+                    asset.extend_from_slice(&ph);
+                    asset.extend_from_slice(&src[off..]);
+                    // exclusions: the manifest itself first, then n-1 further ranges with the requested magnitudes,
+                    // placed after the manifest where the asset is long enough (they exclude media bytes, which is legal)
+                    let mut ex = vec![HashRange::new(off as u64, ph.len() as u64)];
+                    let after = (off + ph.len()) as u64;
+                    for i in 1..n {
+                        let len = lmag.min(64).max(1) + (i as u64 % 3);
+                        let want = smag.max(after) + (i as u64) * (lmag.min(64) + 8);
+                        let start = if want + len < asset.len() as u64 { want } else { after + (i as u64) * 70 };
+                        ex.push(HashRange::new(start, if lmag > 64 && start + lmag < asset.len() as u64 && i == 1 { lmag } else { len }));
+                    }
+                    let exj: Vec<Value> = ex.iter().map(|h| json!([h.start(), h.length()])).collect();
+                    b.set_data_hash_exclusions(ex)?;
+                    b.update_hash_from_stream(fmt, &mut Cursor::new(asset.clone()))?;
+                    let signed = match b.sign_embeddable(fmt) {
+                        Ok(s) => s,
+                        Err(e) => { rounds_out.push(json!({"sign": format!("Err:{}", err_kind(&e)), "placeholder_len": ph.len(), "exclusions": exj})); continue; }
                     };
+                    let mut rec = json!({"sign": "Ok", "placeholder_len": ph.len(), "signed_len": signed.len(), "exclusions": exj});
+                    if signed.len() == ph.len() {
+                        let mut patched = asset.clone();
+                        patched[off..off + signed.len()].copy_from_slice(&signed);
+                        rec["read"] = match read_bytes(ctx(&Value::Null), fmt, &patched) {
+                            Ok(r) => json!({"state": state_str(&r), "failures": failure_codes(&r)}),
+                            Err(e) => json!({"state": format!("ReadErr:{}", err_kind(&e))}),
+                        };
+                    }
+                    rounds_out.push(rec);
                 }
-                Ok(rec)
+                Ok(json!({"rounds": rounds_out}))
             }));
             let rec = match r {
                 Ok(Ok(v)) => v,
-                Ok(Err(e)) => json!({"sign": format!("SetupErr:{}", err_kind(&e)), "msg": format!("{e}")}),
-                Err(p) => json!({"sign": "Panic", "msg": p}),
+                Ok(Err(e)) => json!({"rounds": [{"sign": format!("SetupErr:{}", err_kind(&e)), "msg": format!("{e}")}]}),
+                Err(p) => json!({"rounds": [{"sign": "Panic", "msg": p}]}),
             };
             out.emit(&json!({"format": f, "alg": alg, "vector": v, "obs": rec}));
         }
